@@ -47,4 +47,5 @@ def calinski_harabasz(data, labels, K, centre="column"):
         mu = pts.mean(axis=0)
         B += len(pts) * float(np.sum((mu - g) ** 2))
         Wd += float(np.sum((pts - mu) ** 2))
-    return (B / (K - 1)) / (Wd / (T - K))
+    with np.errstate(divide="ignore", invalid="ignore"):
+        return float(np.float64(B / (K - 1)) / np.float64(Wd / (T - K)))      # zero dispersion: inf / nan, as IEEE says
